@@ -240,6 +240,11 @@ def directed(ctx, only=None):
              ("all(y for y in xs) and len(xs) > 1000", {"xs": [1, 0, 2]}), ("all(y - 5 for y in xs) and len(xs) > 0", {"xs": [1, 5, 2]}),
              ("all(c.strip() for c in [s, CS]) and x > 0", {"s": "  "}), ("not all(y for y in xs) and len(xs) > 1000", {"xs": [1, 0]}),
              ("(all(y for y in xs) or x > 1000) and all(ident(y) for y in ys)", {"xs": [0], "ys": [3, 0]}),
+             # a failed all(...) used as a VALUE (not only tested for truth): it is False
+             ("int(all(y > 1 for y in xs)) + len(xs) > 1000", {"xs": [5, 0]}),
+             ("(all(y > 1 for y in xs) & (x > 0)) and len(xs) > 1000", {"xs": [5, 0]}),
+             ("(all(y > 1 for y in xs) is False or p(1, x) > 1000) and len(xs) > 1000", {"xs": [5, 0]}),
+             ("[all(y > 1 for y in xs)].count(True) > 1000", {"xs": [5, 0]}),
              # a conditional expression whose test can not be re-computed (it hinges on a None-bound name): the branch that
              # Python did not take is not evaluated for the message either
              ("(xs[0] if id is not None else len(xs)) > 1000", {"id": None, "xs": []}),
